@@ -12,11 +12,13 @@ import (
 type Env struct {
 	fe    *FnExec
 	st    *State // state for heap reads
+	live  *State // state receiving declarations (nil = st)
 	old   *State // state for old(); nil = st
 	vars  map[string]Binding
 	pkg   string // package path for resolving identifiers
 	depth int
 	qn    *int
+	recStack map[string]string // recursive spec functions being defined: key -> SMT symbol
 	// quantifier bookkeeping (see EQuant)
 	idxUses    map[string][]Term
 	boundNames map[string]string
@@ -105,6 +107,9 @@ func (e *Env) eval(x Expr) (SVal, types.Type, error) {
 			o = e.st
 		}
 		ne := *e
+		if ne.live == nil {
+			ne.live = e.st
+		}
 		ne.st = o
 		return ne.eval(n.X)
 	case *EUnary:
@@ -202,13 +207,18 @@ func (e *Env) eval(x Expr) (SVal, types.Type, error) {
 	case *ECall:
 		return e.evalCall(n)
 	case *EQuant:
-		// Two passes. Pass 1 evaluates the body with plain bound variables and
-		// records, for every s[k] whose index is exactly a bound variable, the
-		// slice offset. Pass 2 re-binds such a k to (j - off) for a fresh bound
-		// variable j that ranges over absolute positions, so that element reads
-		// appear as select(select(H, arr), j): a trigger without arithmetic.
+		// Iterated evaluation. The body is evaluated with plain bound variables
+		// while recording, for every s[k] whose index is exactly a bound variable,
+		// the slice offset. One such variable per round is then re-bound to
+		// (j - off) for a bound variable j ranging over absolute positions, so that
+		// element reads appear as select(select(H, arr), j): a trigger without
+		// arithmetic. Offsets may mention other bound variables (outer ones, or
+		// siblings), never the variable itself. Bound names are fixed per
+		// quantifier so that recorded offsets stay meaningful across rounds.
 		shift := map[string]Term{}
-		for pass := 1; pass <= 2; pass++ {
+		base := *e.qn
+		*e.qn += len(n.Vars)
+		for round := 0; round <= len(n.Vars)+1; round++ {
 			ne := e.child()
 			var bvs []BoundVar
 			rec := map[string][]Term{}
@@ -217,7 +227,8 @@ func (e *Env) eval(x Expr) (SVal, types.Type, error) {
 			for k, v := range e.boundNames {
 				ne.boundNames[k] = v
 			}
-			for _, v := range n.Vars {
+			own := map[string]string{}
+			for idx, v := range n.Vars {
 				t, err := e.fe.P.resolveType(v.Type, e.pkg)
 				if err != nil {
 					return nil, nil, err
@@ -226,12 +237,13 @@ func (e *Env) eval(x Expr) (SVal, types.Type, error) {
 				if err != nil || len(cs) != 1 {
 					return nil, nil, fmt.Errorf("bound variable %s: unsupported type %s", v.Name, v.Type)
 				}
-				*e.qn++
-				name := fmt.Sprintf("%s!q%d", v.Name, *e.qn)
+				name := fmt.Sprintf("%s!q%d", v.Name, base+idx+1)
+				own[v.Name] = name
 				bvs = append(bvs, BoundVar{name, cs[0].sort})
 				bt := Term{name, cs[0].sort}
 				if off, ok := shift[v.Name]; ok {
 					ne.vars[v.Name] = Binding{Scalar{Sub(bt, off)}, t}
+					delete(ne.boundNames, v.Name)
 				} else {
 					ne.vars[v.Name] = Binding{Scalar{bt}, t}
 					ne.boundNames[v.Name] = name
@@ -241,27 +253,32 @@ func (e *Env) eval(x Expr) (SVal, types.Type, error) {
 			if err != nil {
 				return nil, nil, err
 			}
-			if pass == 1 {
-				for _, v := range n.Vars {
-					offs := rec[v.Name]
-					if len(offs) == 0 {
-						continue
-					}
-					off := offs[0]
-					if off.S == "0" || strings.Contains(off.S, "!q") {
-						continue
-					}
-					shift[v.Name] = off
-				}
-				if len(shift) > 0 {
+			added := false
+			for _, v := range n.Vars {
+				if _, done := shift[v.Name]; done {
 					continue
 				}
+				offs := rec[v.Name]
+				if len(offs) == 0 {
+					continue
+				}
+				off := offs[0]
+				if off.S == "0" || strings.Contains(off.S, own[v.Name]) {
+					continue
+				}
+				shift[v.Name] = off
+				added = true
+				break
+			}
+			if added {
+				continue
 			}
 			if n.Forall {
 				return Scalar{Forall(bvs, body)}, tBool, nil
 			}
 			return Scalar{Exists(bvs, body)}, tBool, nil
 		}
+		return nil, nil, fmt.Errorf("quantifier shifting did not converge")
 	case *ELet:
 		v, t, err := e.eval(n.Val)
 		if err != nil {
@@ -689,6 +706,12 @@ func (e *Env) evalCall(n *ECall) (SVal, types.Type, error) {
 		}
 		r := refOf(v)
 		return Scalar{And(Neq(r, IntLit(0)), Ge(birth(r), o.now), Lt(birth(r), e.st.now), Eq(App(SInt, "tagof", r), IntLit(0)))}, tBool, nil
+	case "owner", "rowof":
+		v, _, err := e.eval(n.Args[0])
+		if err != nil {
+			return nil, nil, err
+		}
+		return Scalar{App(SInt, id.Name, refOf(v))}, tInt, nil
 	case "heapobj":
 		v, _, err := e.eval(n.Args[0])
 		if err != nil {
@@ -842,6 +865,9 @@ func (e *Env) applySpecFunc(sf *SpecFunc, recv SVal, recvT types.Type, args []SV
 		}
 		return Scalar{App(cs[0].sort, name, flat...)}, retT, nil
 	}
+	if sf.Rec {
+		return e.applyRecFunc(sf, recv, recvT, args, retT)
+	}
 	ne := e.child()
 	ne.vars = map[string]Binding{}
 	ne.pkg = sf.Pkg
@@ -864,4 +890,101 @@ func (e *Env) applySpecFunc(sf *SpecFunc, recv SVal, recvT types.Type, args []SV
 		return nil, nil, fmt.Errorf("in %s: %v", sf.Key(), err)
 	}
 	return v, retT, nil
+}
+
+
+// applyRecFunc: a recursive spec function is emitted as an SMT define-fun-rec
+// specialised to the heap of the state it is evaluated in (the heap terms occur
+// in the body); its parameters are scalars. Uses in the same state with the
+// same heap share one symbol, so callee ensures and caller obligations talk
+// about the same function.
+func (e *Env) applyRecFunc(sf *SpecFunc, recv SVal, recvT types.Type, args []SVal, retT types.Type) (SVal, types.Type, error) {
+	cs, err := compsOf(retT)
+	if err != nil || len(cs) != 1 {
+		return nil, nil, fmt.Errorf("rec function %s: unsupported result type", sf.Key())
+	}
+	var actual []Term
+	if sf.RecvName != "" {
+		if recv == nil {
+			return nil, nil, fmt.Errorf("rec method %s needs a receiver", sf.Key())
+		}
+		actual = append(actual, refOf(recv))
+	}
+	for _, a := range args {
+		t, ok := a.(Scalar)
+		if !ok {
+			return nil, nil, fmt.Errorf("rec function %s: parameters must be scalars", sf.Key())
+		}
+		actual = append(actual, t.T)
+	}
+	if sym, ok := e.recStack[sf.Key()]; ok {
+		return Scalar{App(cs[0].sort, sym, actual...)}, retT, nil
+	}
+	// evaluate the body once with formal parameters
+	sym := e.fe.freshName("rec." + shortFn(sf.Key()))
+	ne := e.child()
+	ne.vars = map[string]Binding{}
+	ne.pkg = sf.Pkg
+	ne.depth = e.depth + 1
+	ne.recStack = map[string]string{}
+	for k, v := range e.recStack {
+		ne.recStack[k] = v
+	}
+	ne.recStack[sf.Key()] = sym
+	var formals []BoundVar
+	mk := func(name string, t types.Type) (Term, error) {
+		c, err := compsOf(t)
+		if err != nil || len(c) != 1 {
+			return Term{}, fmt.Errorf("rec function %s: parameter %s must be a scalar", sf.Key(), name)
+		}
+		*e.qn++
+		fn := fmt.Sprintf("%s!q%dr", name, *e.qn)
+		formals = append(formals, BoundVar{fn, c[0].sort})
+		return Term{fn, c[0].sort}, nil
+	}
+	if sf.RecvName != "" {
+		ft, err := mk(sf.RecvName, recvT)
+		if err != nil {
+			return nil, nil, err
+		}
+		ne.vars[sf.RecvName] = Binding{Scalar{ft}, recvT}
+	}
+	for _, p := range sf.Params {
+		pt, err := e.fe.P.resolveType(p.Type, sf.Pkg)
+		if err != nil {
+			return nil, nil, err
+		}
+		ft, err := mk(p.Name, pt)
+		if err != nil {
+			return nil, nil, err
+		}
+		ne.vars[p.Name] = Binding{Scalar{ft}, pt}
+	}
+	body, _, err := ne.evalTerm(sf.Body)
+	if err != nil {
+		return nil, nil, fmt.Errorf("in %s: %v", sf.Key(), err)
+	}
+	// memoise on the body with the self symbol and formal names normalised
+	norm := strings.ReplaceAll(body.S, sym, "SELF")
+	for i, f := range formals {
+		norm = strings.ReplaceAll(norm, f.Name, fmt.Sprintf("FORMAL%d", i))
+	}
+	mkey := sf.Key() + "|" + norm
+	live := e.live
+	if live == nil {
+		live = e.st
+	}
+	if live.recDefs == nil {
+		live.recDefs = map[string]string{}
+	}
+	if old, ok := live.recDefs[mkey]; ok {
+		return Scalar{App(cs[0].sort, old, actual...)}, retT, nil
+	}
+	var ps []string
+	for _, f := range formals {
+		ps = append(ps, "("+f.Name+" "+f.Sort.String()+")")
+	}
+	live.ctx = live.ctx.Decl("(define-fun-rec " + sym + " (" + strings.Join(ps, " ") + ") " + cs[0].sort.String() + " " + body.S + ")")
+	live.recDefs[mkey] = sym
+	return Scalar{App(cs[0].sort, sym, actual...)}, retT, nil
 }
